@@ -350,6 +350,54 @@ func (c *Ctx) sizeof(t types.Type) int64 {
 
 // facts known at block b from dominating branch edges (plus invariants).
 func (p *gprover) facts(b *ssa.BasicBlock) []gfact {
+	fs := p.factsDom(b)
+	// phi edge elimination: a dominating fact `phi != k` rules out the incoming edges on which the phi is the
+	// constant k; when a single edge remains, control came along it, and what held at its source block still
+	// holds (for values not redefined by the phi's own block).
+	n := len(fs)
+	for i := 0; i < n; i++ {
+		f := fs[i]
+		if !f.neq || len(f.e.t) != 1 {
+			continue
+		}
+		for sym, coef := range f.e.t {
+			phi, ok := sym.v.(*ssa.Phi)
+			if !ok || sym.isLen || (coef != 1 && coef != -1) || !phi.Block().Dominates(b) {
+				continue
+			}
+			k := -f.e.c * coef
+			var remaining []int
+			for j, e := range phi.Edges {
+				if c, ok := gConstInt(e); ok && c == k {
+					continue
+				}
+				remaining = append(remaining, j)
+			}
+			if len(remaining) != 1 {
+				continue
+			}
+			src := phi.Block().Preds[remaining[0]]
+			for _, sf := range p.factsDom(src) {
+				mentionsLocalPhi := false
+				for s2 := range sf.e.t {
+					if in, ok := s2.v.(ssa.Instruction); ok {
+						if _, isPhi := in.(*ssa.Phi); isPhi && in.Block() == phi.Block() {
+							mentionsLocalPhi = true
+						}
+					}
+				}
+				if !mentionsLocalPhi {
+					fs = append(fs, sf)
+				}
+			}
+			// and the phi equals the value on that edge
+			fs = append(fs, gfact{e: gs(sym).add(p.val(phi.Edges[remaining[0]]), -1), eq: true})
+		}
+	}
+	return fs
+}
+
+func (p *gprover) factsDom(b *ssa.BasicBlock) []gfact {
 	var fs []gfact
 	fs = append(fs, p.inv...)
 	for cur := b; cur.Idom() != nil; cur = cur.Idom() {
@@ -618,6 +666,9 @@ func glb(v ssa.Value, seen map[ssa.Value]bool) (int64, bool) {
 			return 0, true
 		}
 	case *ssa.Call:
+		if isIndexSearch(x) {
+			return -1, true // strings/bytes.Index*: -1 for "absent"
+		}
 		if b, ok := x.Call.Value.(*ssa.Builtin); ok {
 			switch b.Name() {
 			case "len", "cap":
@@ -691,6 +742,10 @@ func (p *gprover) proveD(goal glin, fs []gfact, depth int) (bool, string) {
 			}
 			if l, ok := glb(s.v, map[ssa.Value]bool{}); ok && l > -(1<<39) {
 				ins = append(ins, gs(s).add(gk(l), -1))
+			}
+			// strings/bytes.Index*(s, …) returns a value in [-1, len(s)-1]
+			if call, ok := s.v.(*ssa.Call); ok && isIndexSearch(call) {
+				ins = append(ins, p.lenOf(call.Call.Args[0]).add(gs(s), -1).add(gk(1), -1))
 			}
 			// sort.Search(n, f) returns a value in [0, n]
 			if call, ok := s.v.(*ssa.Call); ok && fnIs(call.Call.StaticCallee(), "sort", "Search") {
@@ -986,9 +1041,12 @@ func grdFunction(c *Ctx, r *Report, rule string, fn *ssa.Function, st *grdStats)
 								if !f.neq {
 									continue
 								}
-								for fsym := range f.e.t {
-									if !fsym.isLen {
-										if l2, k2 := glb(fsym.v, map[ssa.Value]bool{}); k2 && l2 < 0 && f.e.c == -l2 {
+								if len(f.e.t) != 1 {
+									continue
+								}
+								for fsym, coef := range f.e.t {
+									if !fsym.isLen && fsym == only && (coef == 1 || coef == -1) {
+										if l2, k2 := glb(fsym.v, map[ssa.Value]bool{}); k2 && l2 < 0 && f.e.c*coef == -l2 {
 											ok, why = true, "guarded by the sentinel test on "+p.sy.expr(fsym.v).String()+" (the code's stated belief, not a proof)"
 										}
 									}
@@ -1064,4 +1122,21 @@ func phiStride(v ssa.Value) int64 {
 		return 0
 	}
 	return stride
+}
+
+// isIndexSearch: a call of strings/bytes Index, IndexByte, IndexAny, IndexRune, IndexFunc or their Last forms,
+// whose result is -1 for "not found" and otherwise an offset into the first argument.
+func isIndexSearch(call *ssa.Call) bool {
+	g := call.Call.StaticCallee()
+	if g == nil || g.Pkg == nil || g.Signature.Recv() != nil {
+		return false
+	}
+	if p := g.Pkg.Pkg.Path(); p != "strings" && p != "bytes" {
+		return false
+	}
+	switch g.Name() {
+	case "Index", "IndexByte", "IndexAny", "IndexRune", "IndexFunc", "LastIndex", "LastIndexByte", "LastIndexAny", "LastIndexFunc":
+		return true
+	}
+	return false
 }
